@@ -389,6 +389,72 @@ def drive_predicates(rec, rng, root):
         pass
 
 
+def deep_sums(rec):
+    """sums of ~1500 pairwise unlike addends with or without one like pair (near the top, in the middle, at the
+    bottom), grouped as a right-nested chain, a left-nested chain and a balanced tree, asked under the
+    interpreter's DEFAULT recursion limit.  A chain that deep may be beyond a recursive walk (the pinned code
+    raises RecursionError: not decided here); but an answer, when one is given, must not depend on the grouping."""
+    import sys
+    import mathy_core.util as U
+    from mathy_core import expressions as E
+
+    plain = getattr(U.has_like_terms, "__vmon_original__", U.has_like_terms)
+
+    def term(c, e):
+        return E.MultiplyExpression(E.ConstantExpression(c), E.PowerExpression(E.VariableExpression("x"), E.ConstantExpression(e)))
+
+    def build(spec, how):
+        ts = [term(c, e) for c, e in spec]
+        if how == "right":
+            cur = ts[-1]
+            for t in reversed(ts[:-1]):
+                cur = E.AddExpression(t, cur)
+            return cur
+        if how == "left":
+            cur = ts[0]
+            for t in ts[1:]:
+                cur = E.AddExpression(cur, t)
+            return cur
+        while len(ts) > 1:
+            ts = [E.AddExpression(ts[i], ts[i + 1]) if i + 1 < len(ts) else ts[i] for i in range(0, len(ts), 2)]
+        return ts[0]
+
+    old = sys.getrecursionlimit()
+    for n in (700, 1500, 2600):
+        base = [(i % 7 + 2, i + 2) for i in range(n)]
+        for where in (None, 3, n // 2, n - 40, n - 2):
+            spec = list(base)
+            if where is not None:
+                spec.insert(where, (5, base[where + 1][1] if where + 1 < n else base[0][1]))
+            answers = {}
+            for how in ("balanced", "right", "left"):
+                root = build(spec, how)
+                sys.setrecursionlimit(1000)
+                try:
+                    answers[how] = bool(plain(root))
+                except RecursionError:
+                    answers[how] = "RecursionError"
+                except Exception as e:
+                    answers[how] = "raised " + type(e).__name__
+                finally:
+                    sys.setrecursionlimit(old)
+            rec.ev()
+            rec.arm("like:deep-sums")
+            given = {h: a for h, a in answers.items() if isinstance(a, bool)}
+            truth = where is not None
+            wrong = [h for h, a in given.items() if a != truth]
+            other = [h for h, a in answers.items() if not isinstance(a, bool) and a != "RecursionError"]
+            if wrong:
+                rec.violation("C16", "like-terms/order-or-grouping", "has_like_terms depends on the order or grouping of the added terms",
+                              {"deep_sums": True, "summary": f"a sum of {len(spec)} addends c*x^e, pairwise unlike" + (f" except for one like pair at position {where}" if truth else "")
+                               + f": has_like_terms answers {answers} by grouping (default recursion limit)"})
+            elif other:
+                rec.violation("C16", "util-raises/has_like_terms/" + other[0], "a term predicate raised on a non-equation expression",
+                              {"deep_sums": True, "summary": f"a sum of {len(spec)} addends: {answers}"})
+            elif given:
+                rec.nontrivial(("deep-sum", n, where))
+
+
 def run(rec, cfg):
     rec.accept = {"like", "alike", "termex", "factor"}
     attach_util()
@@ -420,6 +486,8 @@ def run(rec, cfg):
             if S.kind(root) != "Equal":
                 drive_predicates(rec, rng, root)
                 rec.arm("like:long-expression")
+    if cfg.shard == 6 % cfg.nshards:
+        deep_sums(rec)
     if cfg.shard == 5 % cfg.nshards:
         big9 = "9" * 400
         for t in (f"x^({big9}/2) + 3x", f"x^(1/{big9}) + x^(1/{big9})", f"2x^({big9}/{big9}) + x", "x^(1/0) + x^(1/0)", f"x^({big9}) + 3x^({big9})", f"{big9}x + {big9}.5x",
@@ -471,7 +539,9 @@ def run(rec, cfg):
 def replay(rec, cfg, w):
     attach_util()
     rng = cfg.rng("replay")
-    if "n" in w:
+    if w.get("deep_sums"):
+        deep_sums(rec)
+    elif "n" in w:
         check_factor(rec, w["n"])
         if w.get("edited_first_result") and w["n"] % 3:
             check_factor(rec, w["n"] * 3)
